@@ -1,5 +1,360 @@
-(* Props/C15.v — provisional; replaced by the full list of pinned statements. *)
-From BSV Require Import Base.Bytes Base.Hex Spec.ScriptTok Spec.SpendSpec.
-Example C15_script_code_example :
-  script_code [TOp 171; TPush 1 [x01]; TOp 171; TOp 172; TOp 171] = [TOp 172; TOp 171].
-Proof. reflexivity. Qed.
+(* Props/C15.v — pinned statements of property C15 (the interpreter's CHECKSIG / CHECKMULTISIG accept exactly
+   valid signatures on the right data).  Statements only; proofs are in Proofs/InterpSig{Proofs,Ops,Run,Families,Library}.v.
+
+   Implementation side (tied to the Rust code by the correspondence run, op interp.spend):
+     Model/Interp.v      the interpreter (checksig, multisig, match_opcode, run)
+     Model/InterpSig.v   its transaction side: sig_preimage (flag byte, calculate_sighash_preimage), sig_verify
+                         (SighashSignature::from_bytes, PublicKey::from_bytes, Transaction::_verify), from_transaction, spend
+   Specification side (Spec/SpendSpec.v): a signature element  DER(r,s) || flag  is VALID for a key element when the flag is
+   one of the twelve standard hash types, the signature hash of Spec/Bip143.v / Spec/LegacySighash.v (properties C03 / C10)
+   for (transaction, input index, flag, script code, declared amount) is defined, both parts decode (Prim/Der.v, SEC1) and the
+   ECDSA verification primitive accepts on z = SHA256(SHA256(preimage)) mod n.  The script code is the locking script after
+   the last OP_CODESEPARATOR that precedes the signature check.
+   `outside_flag sg = false` excludes the two enum values FORKID (0x40) and ANYONECANPAY (0x80) on their own, about which the
+   property says nothing. *)
+From BSV Require Import Base.Bytes Base.Hex.
+From BSV Require Import Prim.Num Prim.Secp256k1 Prim.Der Prim.Sha256 Prim.Ripemd160.
+From BSV Require Import Model.Opcodes Model.Script Model.VarInt Model.Tx Model.HashApi Model.Sighash Model.Ecdsa Model.Sig
+  Model.Interp Model.InterpSig.
+From BSV Require Import Spec.ScriptTok Spec.SighashWire Spec.Bip143 Spec.LegacySighash Spec.SpendSpec.
+From BSV Require Import Proofs.ScriptProofs Proofs.InterpTotal Proofs.EcdsaSecp Proofs.EcdsaProofs.
+From BSV Require Import Proofs.InterpSigProofs Proofs.InterpSigOps Proofs.InterpSigRun Proofs.InterpSigFamilies Proofs.InterpSigLibrary Proofs.InterpSigSpecColumn Proofs.InterpSigExample.
+Local Open Scope list_scope.
+Local Open Scope nat_scope.
+
+Local Notation SP := sig_preimage.
+Local Notation SV := (sig_verify ref_prims).
+
+(* ------------------------------------------------------------------ *)
+(* 0. What "valid" means, spelled out; and which signature-hash specification a flag selects. *)
+Theorem C15_valid_explicit :
+  forall wt n code v sg pk,
+  spec_sig_valid wt n code v sg pk = true <->
+  exists der f pre rs Q,
+    sg = der ++ [f] /\
+    sighash_spec Hd wt n (b2n f) code v = Some pre /\
+    der_decode der = Some rs /\ sec1_decode pk = Some Q /\
+    prim_verify Q (be_Z (sha256 (sha256 pre)) mod secp_n)%Z rs = true.
+Proof. exact sig_valid_explicit. Qed.
+Print Assumptions C15_valid_explicit.
+
+Theorem C15_sighash_spec_is_C03_C10 :
+  (forall wt n f code v, In f [65; 66; 67; 193; 194; 195]%N ->
+     sighash_spec Hd wt n f code v =
+       if single_without_output wt n f then None else bip143_preimage Hd wt n f (toks_bytes code) v) /\
+  (forall wt n f code v, In f [1; 2; 3; 129; 130; 131]%N ->
+     sighash_spec Hd wt n f code v = legacy_preimage wt n f code).
+Proof. split; [exact sighash_spec_forkid|exact sighash_spec_legacy]. Qed.
+Print Assumptions C15_sighash_spec_is_C03_C10.
+
+(* ------------------------------------------------------------------ *)
+(* 1. The transaction side cannot panic, for any context; hence from_transaction + run always ends with Ok or an error.
+      (These are the two hypotheses of the statements of property C16.) *)
+Theorem C15_transaction_side_total :
+  (forall (c : txctx) cs sg, SP c cs sg <> Panic) /\ (forall (c : txctx) pre sg pk, SV c pre sg pk <> Panic).
+Proof. split; [exact sig_preimage_total|exact sig_verify_total]. Qed.
+Print Assumptions C15_transaction_side_total.
+
+Theorem C15_spend_total :
+  forall t idx,
+  spend ref_prims t idx = Err \/
+  exists j, spend ref_prims t idx = Ok (RunOk j) \/ spend ref_prims t idx = Ok (RunErr j).
+Proof. exact spend_total. Qed.
+Print Assumptions C15_spend_total.
+
+(* ------------------------------------------------------------------ *)
+(* 2. checksig_iff: with [.. sig key] on the stack of ANY interpreter state, checksig pops the two elements and answers
+      `true` exactly when the signature element is valid for the key element, with the script code cut from the locking
+      script at (codeseparator_offset - number of unlocking elements) and the declared value of the input. *)
+Theorem C15_checksig_iff :
+  forall (c : txctx) i l v st,
+  nth_error (inputs (ctx_tx c)) (ctx_idx c) = Some i -> locking i = Some l -> satoshis i = Some v ->
+  codesep st - length (unlocking i) <= length l -> plain_bits l = true ->
+  forall s2 sg pk, stack st = s2 ++ [sg; pk] -> outside_flag sg = false ->
+  (checksig txctx SP SV st c = Ok (true, with_stack st s2) <->
+   spec_sig_valid (view_tx (ctx_tx c)) (ctx_idx c) (flatten (skipn (codesep st - length (unlocking i)) l)) v sg pk = true).
+Proof. exact checksig_accept_iff. Qed.
+Print Assumptions C15_checksig_iff.
+
+Theorem C15_checksig_shape :
+  forall (c : txctx) st s2 sg pk, stack st = s2 ++ [sg; pk] ->
+  checksig txctx SP SV st c = Err \/ exists b, checksig txctx SP SV st c = Ok (b, with_stack st s2).
+Proof. exact checksig_shape. Qed.
+Print Assumptions C15_checksig_shape.
+
+(* ------------------------------------------------------------------ *)
+(* 3. multisig_iff: the stack protocol is  .. <dummy> sig_1..sig_m  m  key_1..key_n  n  (all popped, the dummy too);
+      the answer is `true` exactly when the signatures can be matched, in order, to distinct keys in order
+      (ms_ok: the signatures are valid for a subsequence of the keys), each signature against the preimage selected by
+      its own flag byte.  Soundness is unconditional; completeness needs every key element to be a public key (a byte
+      string that is not a key makes the library refuse the script when the scan reaches it). *)
+Theorem C15_multisig_sound :
+  forall (c : txctx) i l v st,
+  nth_error (inputs (ctx_tx c)) (ctx_idx c) = Some i -> locking i = Some l -> satoshis i = Some v ->
+  codesep st - length (unlocking i) <= length l -> plain_bits l = true ->
+  forall s0 dummy sigs keys,
+  1 <= length sigs <= length keys -> length keys <= 16 ->
+  stack st = s0 ++ [dummy] ++ sigs ++ [small_num (length sigs)] ++ keys ++ [small_num (length keys)] ->
+  Forall (fun sg => outside_flag sg = false) sigs ->
+  multisig txctx SP SV st c = Ok (true, with_stack st s0) ->
+  ms_ok (fun sg pk => spec_sig_valid (view_tx (ctx_tx c)) (ctx_idx c)
+                        (flatten (skipn (codesep st - length (unlocking i)) l)) v sg pk = true) sigs keys.
+Proof. exact multisig_accept_sound. Qed.
+Print Assumptions C15_multisig_sound.
+
+Theorem C15_multisig_complete :
+  forall (c : txctx) i l v st,
+  nth_error (inputs (ctx_tx c)) (ctx_idx c) = Some i -> locking i = Some l -> satoshis i = Some v ->
+  codesep st - length (unlocking i) <= length l -> plain_bits l = true ->
+  forall s0 dummy sigs keys,
+  1 <= length sigs <= length keys -> length keys <= 16 ->
+  stack st = s0 ++ [dummy] ++ sigs ++ [small_num (length sigs)] ++ keys ++ [small_num (length keys)] ->
+  Forall (fun sg => outside_flag sg = false) sigs -> Forall (fun pk => sec1_decode pk <> None) keys ->
+  ms_ok (fun sg pk => spec_sig_valid (view_tx (ctx_tx c)) (ctx_idx c)
+                        (flatten (skipn (codesep st - length (unlocking i)) l)) v sg pk = true) sigs keys ->
+  multisig txctx SP SV st c = Ok (true, with_stack st s0).
+Proof. exact multisig_accept_complete. Qed.
+Print Assumptions C15_multisig_complete.
+
+(* ms_ok is "there is an order-preserving injection": a subsequence of the keys, one key per signature, every pair valid;
+   and the exhaustive search used by the specification column of the correspondence check decides it *)
+Theorem C15_matching_is_injection :
+  forall (A B : Type) (V : A -> B -> Prop) sigs keys,
+  ms_ok V sigs keys <-> exists sel, subseq sel keys /\ Forall2 V sigs sel.
+Proof. intros A B V. exact (ms_ok_injection V). Qed.
+Print Assumptions C15_matching_is_injection.
+
+Theorem C15_matching_search :
+  forall (A B : Type) (V : A -> B -> Prop) (vb : A -> B -> bool),
+  (forall a b, vb a b = true <-> V a b) ->
+  forall sigs keys, ms_search vb sigs keys = true <-> ms_ok V sigs keys.
+Proof. intros A B V. exact (ms_search_spec V). Qed.
+Print Assumptions C15_matching_search.
+
+(* ------------------------------------------------------------------ *)
+(* 4. subscript_spec: for a locking script  pA ++ chk :: pB  of family elements whose first signature check is chk, the
+      script code of the specification is the locking script from the element after the last separator of pA; the
+      interpreter's offset, reduced by the number of unlocking elements, is exactly that position (used in 5). *)
+Theorem C15_subscript_spec :
+  forall pA chk pB,
+  straight pA = true -> forallb (fun b => negb (is_chk b)) pA = true -> is_chk chk = true -> straight_bit chk = true ->
+  script_code (map tok_of_bit (pA ++ chk :: pB)) = map tok_of_bit (skipn (sep_pos pA) (pA ++ chk :: pB)).
+Proof. exact subscript_spec. Qed.
+Print Assumptions C15_subscript_spec.
+
+Theorem C15_offset_is_last_separator :
+  forall u pA, has_sep u = false -> last_sep 0 (u ++ pA) 0 - length u = sep_pos pA.
+Proof. exact offset_after. Qed.
+Print Assumptions C15_offset_is_last_separator.
+
+(* ------------------------------------------------------------------ *)
+(* 5. Interpreter::from_transaction + run on the three families.  `straight l`: elements of the family alphabet only (direct
+      pushes of 1..75 bytes, OP_0, OP_1..OP_16, OP_DUP, OP_HASH160, OP_EQUALVERIFY, the four signature checks, and
+      OP_CODESEPARATOR — at ANY top-level position: only `remove_seps l` is fixed).  vf = true is the VERIFY form followed by OP_1.
+      accepts = the run ends with the single element 01; rejects = an error, or the single element "false". *)
+Theorem C15_spend_p2pk :
+  forall t idx i v l sg pk (vf : bool),
+  nth_error (inputs t) idx = Some i -> locking i = Some l -> satoshis i = Some v ->
+  unlocking i = [BPush sg] -> 1 <= length sg <= 75 -> straight l = true ->
+  remove_seps l = [BPush pk] ++ (if vf then [BOp 173; BOp 81] else [BOp 172]) ->
+  outside_flag sg = false ->
+  (spec_sig_valid (view_tx t) idx (script_code (flatten l)) v sg pk = true -> accepts (spend ref_prims t idx)) /\
+  (spec_sig_valid (view_tx t) idx (script_code (flatten l)) v sg pk <> true -> rejects (spend ref_prims t idx)).
+Proof. exact spend_p2pk. Qed.
+Print Assumptions C15_spend_p2pk.
+
+Theorem C15_spend_p2pkh :
+  forall t idx i v l sg pk h (vf : bool),
+  nth_error (inputs t) idx = Some i -> locking i = Some l -> satoshis i = Some v ->
+  unlocking i = [BPush sg; BPush pk] -> 1 <= length sg <= 75 -> 1 <= length pk <= 75 -> straight l = true ->
+  remove_seps l = [BOp 118; BOp 169; BPush h; BOp 136] ++ (if vf then [BOp 173; BOp 81] else [BOp 172]) ->
+  outside_flag sg = false ->
+  (ripemd160 (sha256 pk) = h /\ spec_sig_valid (view_tx t) idx (script_code (flatten l)) v sg pk = true
+     -> accepts (spend ref_prims t idx)) /\
+  (~ (ripemd160 (sha256 pk) = h /\ spec_sig_valid (view_tx t) idx (script_code (flatten l)) v sg pk = true)
+     -> rejects (spend ref_prims t idx)).
+Proof. exact spend_p2pkh. Qed.
+Print Assumptions C15_spend_p2pkh.
+
+Theorem C15_spend_multisig :
+  forall t idx i v l dummy sigs keys (vf : bool),
+  nth_error (inputs t) idx = Some i -> locking i = Some l -> satoshis i = Some v ->
+  (* push-only unlocking script that leaves  dummy, sig_1 .. sig_m  on the stack *)
+  forallb (fun b => is_simple b && negb (is_sep b)) (unlocking i) = true ->
+  (forall s, stack_exec (unlocking i) s = Ok (s ++ dummy :: sigs)) ->
+  straight (unlocking i) = true -> straight l = true ->
+  1 <= length sigs <= length keys /\ length keys <= 16 ->
+  remove_seps l = (op_small (length sigs) :: map BPush keys ++ [op_small (length keys)])
+                  ++ (if vf then [BOp 175; BOp 81] else [BOp 174]) ->
+  Forall (fun sg => outside_flag sg = false) sigs ->
+  (accepts (spend ref_prims t idx) \/ rejects (spend ref_prims t idx)) /\
+  (accepts (spend ref_prims t idx) ->
+     ms_ok (fun sg pk => spec_sig_valid (view_tx t) idx (script_code (flatten l)) v sg pk = true) sigs keys) /\
+  (Forall (fun pk => sec1_decode pk <> None) keys ->
+     ms_ok (fun sg pk => spec_sig_valid (view_tx t) idx (script_code (flatten l)) v sg pk = true) sigs keys ->
+     accepts (spend ref_prims t idx)).
+Proof. exact multisig_family. Qed.
+Print Assumptions C15_spend_multisig.
+
+(* 5'. The verdict function of the specification column of the correspondence check (Spec/SpendSpec.expected: family
+       recognised on the flat elements with separators erased, exact-arity push-only unlocking script, exhaustive search for
+       the matching) is met by the model.  Unspecified: outside the families, wrong arity, a bare FORKID / ANYONECANPAY flag
+       byte, or SINGLE|FORKID without an output at the index (the difference C03 permits). *)
+Theorem C15_spend_meets_spec :
+  forall t idx i l v,
+  nth_error (inputs t) idx = Some i -> locking i = Some l -> satoshis i = Some v ->
+  straight l = true -> straight (unlocking i) = true ->
+  match fst (expected Hd H160 sec1_decode prim_verify (view_tx t) idx v (flatten l) (flatten (unlocking i))) with
+  | Accept => accepts (spend ref_prims t idx)
+  | Reject => rejects (spend ref_prims t idx)
+  | AcceptOrReject => accepts (spend ref_prims t idx) \/ rejects (spend ref_prims t idx)
+  | Unspecified => True
+  end.
+Proof. exact spend_meets_expected. Qed.
+Print Assumptions C15_spend_meets_spec.
+
+Theorem C15_accept_excludes_reject : forall r, accepts r -> ~ rejects r.
+Proof. exact accepts_not_rejects. Qed.
+Print Assumptions C15_accept_excludes_reject.
+
+(* ------------------------------------------------------------------ *)
+(* 6. (partial: relative to the group hypotheses `secp256k1_group` of Proofs/EcdsaSecp.v — the concrete secp256k1 formulas
+      form a group of prime order n on the curve points, lift_x inverts the x coordinate; they are tied to k256 by
+      correspondence, not proved.)  Spends assembled through the library's own API are accepted.
+      tx_sign_element = Transaction::sign(..).to_bytes(): preimage, RFC 6979 ECDSA over its double SHA-256, DER, flag byte.
+      same_skeleton t0 t: the transaction at signing time and at spending time differ at most in input scripts and
+      extended fields (the signature hash never sees them: C15_sighash_ignores_input_scripts). *)
+Theorem C15_sighash_ignores_input_scripts :
+  (forall t t' n ht code amt, same_skeleton t t' ->
+     sighash_spec Hd (view_tx t) n ht code amt = sighash_spec Hd (view_tx t') n ht code amt) /\
+  (forall t k s, same_skeleton t (set_unlocking_at t k s)).
+Proof. split; [exact spec_sighash_skeleton|exact same_skeleton_set_unlocking]. Qed.
+Print Assumptions C15_sighash_ignores_input_scripts.
+
+Theorem C15_signed_element_valid_partial :
+  secp256k1_group ->
+  forall t t' sk f idx sub v sg,
+  valid_sk sk -> std_flag f -> plain_bits sub = true -> same_skeleton t t' ->
+  tx_sign_element ref_prims t sk f idx sub v = Ok sg ->
+  spec_sig_valid (view_tx t') idx (flatten sub) v sg (pubkey_bytes ref_prims sk) = true
+  /\ outside_flag sg = false /\ 9 <= length sg <= 73.
+Proof. exact signed_element_valid. Qed.
+Print Assumptions C15_signed_element_valid_partial.
+
+Theorem C15_library_p2pk_accepted_partial :
+  secp256k1_group ->
+  forall t0 t idx i v l sub,
+  nth_error (inputs t) idx = Some i -> locking i = Some l -> satoshis i = Some v -> straight l = true ->
+  same_skeleton t0 t ->
+  plain_bits sub = true /\ flatten sub = script_code (flatten l) ->
+  forall sk f sg (vf : bool),
+  valid_sk sk -> std_flag f ->
+  remove_seps l = [BPush (pubkey_bytes ref_prims sk)] ++ (if vf then [BOp 173; BOp 81] else [BOp 172]) ->
+  tx_sign_element ref_prims t0 sk f idx sub v = Ok sg ->
+  unlocking i = [BPush sg] ->
+  accepts (spend ref_prims t idx).
+Proof. exact library_p2pk_accepted_partial. Qed.
+Print Assumptions C15_library_p2pk_accepted_partial.
+
+Theorem C15_library_p2pkh_accepted_partial :
+  secp256k1_group ->
+  forall t0 t idx i v l sub,
+  nth_error (inputs t) idx = Some i -> locking i = Some l -> satoshis i = Some v -> straight l = true ->
+  same_skeleton t0 t ->
+  plain_bits sub = true /\ flatten sub = script_code (flatten l) ->
+  forall sk f sg (vf : bool),
+  valid_sk sk -> std_flag f ->
+  remove_seps l = [BOp 118; BOp 169; BPush (ripemd160 (sha256 (pubkey_bytes ref_prims sk))); BOp 136]
+                  ++ (if vf then [BOp 173; BOp 81] else [BOp 172]) ->
+  tx_sign_element ref_prims t0 sk f idx sub v = Ok sg ->
+  unlocking i = [BPush sg; BPush (pubkey_bytes ref_prims sk)] ->
+  accepts (spend ref_prims t idx).
+Proof. exact library_p2pkh_accepted_partial. Qed.
+Print Assumptions C15_library_p2pkh_accepted_partial.
+
+Theorem C15_library_multisig_accepted_partial :
+  secp256k1_group ->
+  forall t0 t idx i v l sub,
+  nth_error (inputs t) idx = Some i -> locking i = Some l -> satoshis i = Some v -> straight l = true ->
+  same_skeleton t0 t ->
+  plain_bits sub = true /\ flatten sub = script_code (flatten l) ->
+  forall (sks : list privkey) (signers : list (privkey * N)) (sigs : list bytes) (vf : bool),
+  Forall valid_sk sks ->
+  subseq (map fst signers) sks ->
+  Forall (fun s => std_flag (snd s)) signers ->
+  Forall2 (fun s sg => tx_sign_element ref_prims t0 (fst s) (snd s) idx sub v = Ok sg) signers sigs ->
+  1 <= length sigs -> length sks <= 16 ->
+  remove_seps l = (op_small (length sigs) :: map BPush (map (pubkey_bytes ref_prims) sks) ++ [op_small (length sks)])
+                  ++ (if vf then [BOp 175; BOp 81] else [BOp 174]) ->
+  unlocking i = BOp 0 :: map BPush sigs ->
+  accepts (spend ref_prims t idx).
+Proof. exact library_multisig_accepted_partial. Qed.
+Print Assumptions C15_library_multisig_accepted_partial.
+
+(* the documented usage `tx.sign(key, flag, idx, &locking_script, value)`: without a separator the script code is the
+   whole locking script *)
+Theorem C15_script_code_without_separator :
+  forall l, forallb (fun x => negb (is_separator x)) l = true -> script_code l = l.
+Proof. exact script_code_no_sep. Qed.
+Print Assumptions C15_script_code_without_separator.
+
+(* ------------------------------------------------------------------ *)
+(* Non-vacuity, on the reference instance (arithmetic on Z; two scalar multiplications: about a minute).
+   A P2PK spend built and signed by the library itself (driver op spend.build: key 1, uncompressed; flag ALL|FORKID; value 5000;
+   locking script  OP_CODESEPARATOR <key> OP_CHECKSIG): it satisfies the hypotheses of C15_spend_p2pk, the specification calls
+   its signature valid, the model accepts it, and the same spend with a declared value of 5001 is rejected with `false`. *)
+Example C15_example_hypotheses :
+  match ex_spend 5000 with
+  | Some t =>
+      match inputs t with
+      | [i] =>
+          match locking i, unlocking i with
+          | Some l, [BPush sg] =>
+              straight l = true /\ remove_seps l = [BPush (skipn 2 (removelast (to_bytes l)))] ++ [BOp 172]
+              /\ satoshis i = Some 5000%N /\ length sg = 72 /\ outside_flag sg = false /\ has_sep l = true
+          | _, _ => False
+          end
+      | _ => False
+      end
+  | None => False
+  end.
+Proof. vm_compute. repeat split. Qed.
+
+Example C15_example_accepts :
+  option_map (fun t => stack_of (spend ref_prims t 0)) (ex_spend 5000) = Some (Some [[x01]]) /\
+  option_map (fun t => stack_of (spend ref_prims t 0)) (ex_spend 5001) = Some (Some [[]]).
+Proof. exact example_accepts. Qed.
+
+Example C15_example_verdicts :
+  option_map ex_verdict (ex_spend 5000) = Some (Some Accept) /\
+  option_map (fun t => ex_verdict (bad_flag t)) (ex_spend 5000) = Some (Some Reject).
+Proof. exact example_verdicts. Qed.
+
+(* cheap cases: the locking script without a declared value -> error at the check; an input index without an input ->
+   error; no extended fields at all -> only the unlocking script runs (nothing is checked, the signature stays on the stack) *)
+Definition ex_spend_no_value : option tx :=
+  match bytes_of_hex ex_tx, bytes_of_hex ex_lock with
+  | Some tb, Some lb =>
+      match tx_from_bytes tb, from_bytes lb with
+      | Ok t, Ok l => Some (set_inputs t (map (fun i => set_locking_script i l) (inputs t)))
+      | _, _ => None
+      end
+  | _, _ => None
+  end.
+Example C15_example_errors :
+  match ex_spend_no_value, bytes_of_hex ex_tx with
+  | Some t, Some tb =>
+      (match spend ref_prims t 0 with Ok (RunErr _) => True | _ => False end) /\ (spend ref_prims t 1 = Err) /\
+      match tx_from_bytes tb with
+      | Ok t0 => option_map (map (@length byte)) (stack_of (spend ref_prims t0 0)) = Some [72]
+      | _ => False
+      end
+  | _, _ => False
+  end.
+Proof. vm_compute. repeat split. Qed.
+
+(* order-preserving matching: [a; c] matches keys [a; b; c]; [c; a] does not *)
+Example C15_example_matching :
+  ms_search Nat.eqb [1; 3] [1; 2; 3] = true /\ ms_search Nat.eqb [3; 1] [1; 2; 3] = false /\
+  ms_search Nat.eqb [1; 1] [1; 2; 3] = false.
+Proof. repeat split. Qed.
